@@ -19,7 +19,9 @@ pipelines with rate / union post-processing and a·v+b modifiers (Pipes, RiskEff
 tables (Tables), adding and concatenating observers with mapper / binned stratifications (Obs), per-simulant step
 modifiers and snoozing (StepMod, Snoozer), and a component that keeps the RESIDUAL_CHOICE sentinel in its own state
 (ResidualUser: regression for finding F-M), and a component that keeps per-simulant state in plain attributes filled only by
-a column-less initializer (PrivateState).  Births can be scheduled at EVERY step, so that simulants are created after any
+a column-less initializer (PrivateState), and error-swallowing user code (Swallower: rejected multi-column updates, service
+calls in forbidden life-cycle states, duplicate registrations, a creation with conflicting initialiser data - each caught
+and survived; rejections must be atomic and the same in every environment).  Births can be scheduled at EVERY step, so that simulants are created after any
 interruption point.  Optional traits feed the framework the unusual-but-legal inputs real models
 produce: NaN / inf / zero / above-the-clip rates and NaN probabilities for some simulants (Mortality through
 stream.filter_for_rate / filter_for_probability / plain exp; Condition's incidence transition), a NaN cell in a lookup
@@ -553,6 +555,126 @@ class PrivateState(Component):
             self.population_view.update(pop)
 
 
+class Swallower(Component):
+    """Error-swallowing user code: attempts things the framework must REJECT, catches the error, records it and carries on.
+    Rejections have to be atomic and identical in every environment - a partial effect that depends on set order, hash
+    seed or process history shows up in the digests.
+      bad:        every step a multi-column update (n_cols own columns, built as one DataFrame) in which one column has a
+                  changed dtype ("dtype"), the index an unknown simulant ("row"), or the frame an extra column ("extra");
+                  "none" = a valid multi-column update
+      lifecycle:  service calls in a forbidden life-cycle state (get_stream / register_value_producer / get_emitter
+                  during a time step)
+      setup_dups: a duplicate randomness stream and a second source for a pipeline, inside try/except in setup
+      conflict_at: at that step, create simulants whose initializer data CONFLICTS with another component's (BasePop's
+                  dose); the creation fails half-way, the error is caught
+    The number of swallowed errors is written to the column sw_err, so a lost or extra rejection is visible too."""
+
+    COLS = ["sw_a", "sw_b", "sw_c", "sw_d", "sw_e"]
+
+    def __init__(self, bad="dtype", n_cols=4, lifecycle=True, setup_dups=True, conflict_at=None, valid_every=0):
+        super().__init__()
+        self.bad, self.n_cols, self.lifecycle, self.setup_dups = bad, int(n_cols), lifecycle, setup_dups
+        self.conflict_at, self.valid_every = conflict_at, int(valid_every)
+        self.errors = []
+        self.count = 0
+        self.actions = []
+
+    @property
+    def columns_created(self):
+        return self.COLS[:self.n_cols] + ["sw_err"]
+
+    @property
+    def columns_required(self):
+        return ["dose"] if self.conflict_at is not None else None
+
+    @property
+    def initialization_requirements(self):
+        return {"requires_columns": ["dose"] if self.conflict_at is not None else [], "requires_values": [],
+                "requires_streams": []}
+
+    def _swallow(self, what, fn):
+        try:
+            fn()
+            self.errors.append([self.count, what, "accepted"])
+            return 0
+        except Exception as e:                   # noqa: B902  (that is the point of this component)
+            self.errors.append([self.count, what, type(e).__name__])
+            return 1
+
+    def setup(self, builder):
+        self.get_stream = builder.randomness.get_stream
+        self.register_producer = builder.value.register_value_producer
+        self.get_emitter = builder.event.get_emitter
+        self.creator = builder.population.get_simulant_creator()
+        builder.value.register_value_producer("sw_value", source=self._source)
+        if self.setup_dups:
+            self._swallow("dup_stream", lambda: builder.randomness.get_stream("age_initialization"))
+            self._swallow("dup_source", lambda: builder.value.register_value_producer("sw_value", source=self._source))
+
+    def _source(self, index):
+        return pd.Series(1.0, index=index)
+
+    def _frame(self, index):
+        labels = np.asarray(index, dtype="int64")
+        # explicit dtypes: an EMPTY list would be inferred as a non-string column when the initial population is empty, and
+        # the first simulant born later could then not store its string (a model error, not the framework's)
+        cols = {"sw_a": labels * 0.5, "sw_b": labels.astype("int64"),
+                "sw_c": pd.Series(["x%d" % (l % 3) for l in labels], index=index, dtype="str"),
+                "sw_d": labels * 0.25 + 1.0, "sw_e": labels % 2 == 0}
+        return pd.DataFrame({c: cols[c] for c in self.COLS[:self.n_cols]}, index=index)
+
+    def on_initialize_simulants(self, pop_data):
+        if pop_data.user_data.get("sw_conflict"):
+            # conflicting initialisation data for a column another component has already initialised: must be refused
+            self.population_view.update(pd.Series(999.0, index=pop_data.index, name="dose"))
+        frame = self._frame(pop_data.index)
+        frame["sw_err"] = np.zeros(len(frame), dtype="int64")
+        self.population_view.update(frame)
+
+    def on_time_step(self, event):
+        n_err = 0
+        own = self.population_view.subview(self.COLS[:self.n_cols] + ["sw_err"])
+        pop = own.get(event.index) if len(event.index) else None       # tracked simulants of the event only
+        if pop is not None and len(pop):
+            new = pop[self.COLS[:self.n_cols]].copy()
+            for c in new.columns:                # every column really changes
+                if c in ("sw_a", "sw_d"):
+                    new[c] = new[c] + 1.0
+                elif c == "sw_b":
+                    new[c] = new[c] + 1
+                elif c == "sw_c":
+                    new[c] = new[c].astype(str) + "y"
+                elif c == "sw_e":
+                    new[c] = ~new[c].astype(bool)
+            bad = self.bad
+            if self.valid_every and self.count % self.valid_every == 0:
+                bad = "none"
+            if bad == "dtype":
+                victim = [c for c in ("sw_b", "sw_a", "sw_e") if c in new.columns][self.count % min(3, len(new.columns)) - 1]
+                new[victim] = ["oops"] * len(new) if victim != "sw_b" else new[victim].astype(float) + 0.5
+            elif bad == "row":
+                extra = new.iloc[[0]].copy()
+                extra.index = [10 ** 6 + self.count]
+                new = pd.concat([new, extra])
+            elif bad == "extra":
+                new["sw_zz"] = 1.0
+            n_err += self._swallow("update_" + bad, lambda: own.update(new))
+        if self.lifecycle:
+            n_err += self._swallow("late_stream", lambda: self.get_stream("sw_late_%d" % self.count))
+            n_err += self._swallow("late_producer", lambda: self.register_producer("sw_late", source=self._source))
+            n_err += self._swallow("late_emitter", lambda: self.get_emitter("time_step"))
+        if self.conflict_at is not None and self.count == int(self.conflict_at):
+            n_err += self._swallow("conflict_create", lambda: self.creator(2, {"sw_conflict": True, "age_start": 0, "age_end": 2}))
+        if n_err and pop is not None and len(pop):
+            err = own.get(event.index)[["sw_err"]]
+            if len(err) and not err["sw_err"].isna().any():
+                err["sw_err"] = err["sw_err"].astype("int64") + n_err
+                self._swallow("count", lambda: own.update(err))
+
+    def on_collect_metrics(self, event):
+        self.count += 1
+
+
 class StepMod(Component):
     """Per-simulant step modifier: label l asks for (1 + (a*l + b*tick) mod c) minimum steps (NaT when p>0 and
     (l + tick) mod p == 0), tick = whole minimum steps since start.  Logs every call's values."""
@@ -653,7 +775,7 @@ def age_sum(df):
 
 KINDS = {"recorder": Recorder, "base_pop": BasePop, "births": Births, "pipes": Pipes, "mortality": Mortality,
          "tables": Tables, "risk": RiskEffect, "condition": Condition, "residual": ResidualUser, "stepmod": StepMod,
-         "snoozer": Snoozer, "obs": Obs, "private": PrivateState}
+         "snoozer": Snoozer, "obs": Obs, "private": PrivateState, "swallow": Swallower}
 
 
 # =====================================================================================================================
@@ -1143,6 +1265,8 @@ def sched_case(program, drv, clock0, rows0, trace, actions, rows_after, clocks_a
     (Sim.v only adds, subtracts, compares and takes minima of times, so it is invariant under this affine change of
     units; it keeps the Z literals small - coqc spends ~1.4 ms per 19-digit literal)."""
     import math as _m
+    if any(c.get("conflict_at") is not None for c in program.get("components", [])):
+        return None, "a creation that fails half-way (conflicting initialiser data, error swallowed) is outside the schedule model"
     if clock0 is None or any(c is None for c in clocks_after) or len(clocks_after) != len(rows_after):
         return None, "schedule not observable (no Recorder component reachable)"
     E, m = t_int(stop_time(program)), t_int(min_step(program))
@@ -1268,6 +1392,14 @@ def gen_program(rng, max_steps=8, force=None):
             sched[str(rng.choice([0, 0, 1, 2, 3, n - 1, rng.randint(0, n)]))] = rng.choice([1, 2, 3] if every else [1, 2, 3, 5])
         # at most 15 births in all (n <= 12 steps x 1 + 3): see the CRN map-size remark below
         comps.append({"kind": "births", "schedule": sched, "phase": rng.choice([0, 1, 1, 1, 2, 3]), "every": every})
+    if want("swallow", 0.5):
+        comps.append({"kind": "swallow", "bad": rng.choice(["dtype", "dtype", "dtype", "row", "extra", "none"]),
+                      "n_cols": rng.choice([3, 4, 5, 5]), "lifecycle": rng.random() < 0.6, "setup_dups": rng.random() < 0.6,
+                      # conflict_at stays None in generated programs: a creation that fails half-way leaves the population
+                      # manager's `adding_simulants` flag set, after which EVERY later update of any component is refused
+                      # (reported for triage; deterministic, but the run cannot continue)
+                      "conflict_at": None,
+                      "valid_every": rng.choice([0, 0, 2, 3])})
     if want("private", 0.4):
         comps.append({"kind": "private", "scale": rng.choice([0.125, 0.5])})
     have_tables = want("tables", 0.6)
@@ -1346,6 +1478,10 @@ def program_tags(program):
             tags.append("trait:nan_pipeline_value")
         if c.get("empty_calls"):
             tags.append("trait:empty_index_calls")
+        if c["kind"] == "swallow":
+            tags.append(f"swallow:update_{c.get('bad')}")
+            if c.get("conflict_at") is not None:
+                tags.append("swallow:conflicting_creation")
     tags = sorted(set(tags))
     tags += [f"clock:{program['clock']}", f"crn:{int(bool(program.get('crn')))}", f"pop:{min(program['pop'], 9)}",
              f"step:{program['step']}", f"endfrac:{program.get('end_frac', 0)}"]
